@@ -56,6 +56,7 @@ class Arm:
         self.guard = guard
         self.body = body
         self.line = line
+        self.scrut = None         # scrutinee components of the match this arm belongs to (set by dispatchers())
 
 
 def dispatchers(items, min_arms=4):
@@ -76,6 +77,8 @@ def dispatchers(items, min_arms=4):
                         pats = [value_pat(alt)]
                     if any(x[0] for x in pats) and any(x[1] not in (None, "_") for x in pats):
                         arms.append(Arm(it["name"], pats, a[1], a[2], a[3]))
+                        # the scrutinee components, position by position (an operand the pattern does not bind can only be named through them)
+                        arms[-1].scrut = m[1][1] if (is_node(m[1]) and m[1][0] == "tuple") else [m[1]]
             if len(arms) >= min_arms:
                 key = it["name"] if it["k"] == "fn" else "%s::%s" % (it["self"], it["name"])
                 if key not in out or len(arms) > len(out[key]):
